@@ -359,6 +359,7 @@ theorem allowOrigin_sound (cfg : Cfg) (o : Str) (hv : ValidOrigin o)
 
 theorem allowOrigin_complete (cfg : Cfg) (o : Str) (ho : o ≠ [])
     (hlen : o.length ≤ 261) (hsep : (indexOf sep o).isSome = true)
+    (hc : ∀ p ∈ effOrigins cfg, compiles p = true)
     (ha : Allowed (effOrigins cfg) o) : allowOrigin cfg o ≠ [] := by
   unfold allowOrigin
   by_cases hl : allowLoop cfg o (effOrigins cfg) ≠ []
@@ -374,7 +375,7 @@ theorem allowOrigin_complete (cfg : Cfg) (o : Str) (ho : o ≠ [])
         exact absurd (allowLoop_complete cfg o ho _ (Or.inl hpm)) hl
       · have : (patterns cfg).any (fun p => glob p o) = true := by
           apply List.any_eq_true.mpr
-          exact ⟨p, List.mem_filter.mpr ⟨hpm, by simpa using hps⟩, (glob_iff p o).mpr hg⟩
+          exact ⟨p, List.mem_filter.mpr ⟨hpm, by simp [hps, hc p hpm]⟩, (glob_iff p o).mpr hg⟩
         simp only [this, if_true]
         exact ho
 
@@ -439,15 +440,18 @@ theorem C11_acao_value (cfg : Cfg) (req : Req) (v : Str) (h : (serve cfg req).ac
       rw [hv']; exact hval ha
 
 /-- **C11_acao_complete** — conversely, every allowed valid origin of at most 261 bytes is
-    granted access (the compiled patterns cover what `matchSubdomain` no longer accepts). -/
+    granted access (the compiled patterns cover what `matchSubdomain` no longer accepts), provided
+    every entry compiles, i.e. is valid UTF-8 (`compiles_of_ascii`: every ASCII entry does;
+    `compiles_needed`: the hypothesis cannot be dropped). -/
 theorem C11_acao_complete (cfg : Cfg) (req : Req) (hv : ValidOrigin req.origin)
-    (hlen : req.origin.length ≤ 261) (ha : Allowed (effOrigins cfg) req.origin) :
+    (hlen : req.origin.length ≤ 261) (hc : ∀ p ∈ effOrigins cfg, compiles p = true)
+    (ha : Allowed (effOrigins cfg) req.origin) :
     (serve cfg req).acao = some (allowOrigin cfg req.origin) ∧ allowOrigin cfg req.origin ≠ [] := by
   obtain ⟨s, hh, ho, hs0, _, hs, _, _⟩ := hv.shape
   have h0 : req.origin ≠ [] := by rw [ho]; simp [hs0]
   have hsep : (indexOf sep req.origin).isSome = true := by
     rw [ho, indexOf_sep_append s hh hs]; rfl
-  have hne := allowOrigin_complete cfg req.origin h0 hlen hsep ha
+  have hne := allowOrigin_complete cfg req.origin h0 hlen hsep hc ha
   refine ⟨?_, hne⟩
   unfold serve
   simp only []
@@ -607,5 +611,372 @@ example : glob "http?://a+b.example.com:80?0".toList "https://a+b.example.com:80
 theorem PatScheme_needed :
     matchSubdomain "a://x.c".toList "a:b://*.c".toList = true ∧
     glob "a:b://*.c".toList "a://x.c".toList = false := by decide
+
+
+/-! ## round 4: entries that do not compile -/
+
+theorem utf8Go_ascii : ∀ p : Str, (∀ c ∈ p, c.toNat < 0x80) → utf8Go 0 0 0 p = true
+  | [], _ => by simp [utf8Go]
+  | a :: r, h => by
+    have ha : a.toNat < 0x80 := h a (by simp)
+    unfold utf8Go
+    simp only [ha, if_true]
+    exact utf8Go_ascii r (fun c hc => h c (by simp [hc]))
+
+/-- every ASCII entry compiles (so for ASCII allow-lists `C11_acao_complete` has no extra hypothesis) -/
+theorem compiles_of_ascii (p : Str) (h : ∀ c ∈ p, c.toNat < 0x80) : compiles p = true :=
+  utf8Go_ascii p h
+
+/-- an entry that does not compile is never consulted as a pattern — it can only match through the
+    literal comparison or `matchSubdomain` of the allow loop -/
+theorem C11_invalid_entry_dropped (cfg : Cfg) (p : Str) (h : compiles p = false) : p ∉ patterns cfg := by
+  intro hm
+  have := (List.mem_filter.mp hm).2
+  simp [h] at this
+
+/-- the `compiles` hypothesis of `C11_acao_complete` cannot be dropped: the entry `https://\xff*.c`
+    read as a pattern matches `https://\xffa.c`, yet the middleware refuses that origin, because
+    the entry is not valid UTF-8 and was silently dropped when the patterns were compiled -/
+theorem compiles_needed :
+    let p : Str := "https://".toList ++ [Char.ofNat 0xff] ++ "*.c".toList
+    let o : Str := "https://".toList ++ [Char.ofNat 0xff] ++ "a.c".toList
+    glob p o = true ∧ compiles p = false ∧ allowOrigin ⟨[p], false, false⟩ o = [] ∧
+    (serve ⟨[p], false, false⟩ ⟨false, [o]⟩).status = 401 := by decide
+
+/-! ## round 4: the complete middleware (`serveFull`) -/
+
+def FReq.origin (fr : FReq) : Str := fr.core.origin
+
+/-- `routerAllowMethods`: the router's value is read on OPTIONS only -/
+def rAllowOf (fr : FReq) : Str := if fr.core.preflight then fr.routerAllow else []
+/-- the `Allow` response header -/
+def allowHdrOf (fr : FReq) : Option Str := if rAllowOf fr = [] then none else some (rAllowOf fr)
+def acamOf (fc : Full) (fr : FReq) : Str :=
+  if fc.methods = [] ∧ rAllowOf fr ≠ [] then rAllowOf fr
+  else joinComma (if fc.methods = [] then defaultMethods else fc.methods)
+def acahOf (fc : Full) (fr : FReq) : Option Str :=
+  if joinComma fc.headers ≠ [] then some (joinComma fc.headers)
+  else if fr.reqHeaders ≠ [] then some fr.reqHeaders else none
+def acehOf (fc : Full) : Option Str := if joinComma fc.expose = [] then none else some (joinComma fc.expose)
+def maxAgeOf (fc : Full) : Option Str := if fc.maxAge = 0 then none else some (maxAgeStr fc.maxAge)
+
+theorem decideOrigin_func (fc : Full) (f : Str → FRes) (hf : fc.func = some f) (o : Str) :
+    (∀ st, f o = .err st → decideOrigin fc o = .error st) ∧
+    (f o = .allow → decideOrigin fc o = .ok o) ∧ (f o = .deny → decideOrigin fc o = .ok []) :=
+  ⟨fun st h => by simp [decideOrigin, hf, h], fun h => by simp [decideOrigin, hf, h],
+   fun h => by simp [decideOrigin, hf, h]⟩
+
+/-- shape of every answer of the complete middleware -/
+theorem serveFull_cases (fc : Full) (fr : FReq) :
+    (fr.skip = true ∧ serveFull fc fr = noHeaders ⟨200, true, none, false, []⟩ none) ∨
+    (fr.skip = false ∧
+      ((fr.origin = [] ∧ ((fr.core.preflight = false ∧
+            serveFull fc fr = noHeaders ⟨200, true, none, false, [varyOrigin]⟩ (allowHdrOf fr)) ∨
+          (fr.core.preflight = true ∧
+            serveFull fc fr = noHeaders ⟨204, false, none, false, [varyOrigin]⟩ (allowHdrOf fr)))) ∨
+       (fr.origin ≠ [] ∧ ∃ st, decideOrigin fc fr.origin = .error st ∧
+          serveFull fc fr = noHeaders ⟨st, false, none, false, [varyOrigin]⟩ (allowHdrOf fr)) ∨
+       (fr.origin ≠ [] ∧ decideOrigin fc fr.origin = .ok [] ∧
+          ((fr.core.preflight = false ∧
+              serveFull fc fr = noHeaders ⟨401, false, none, false, [varyOrigin]⟩ (allowHdrOf fr)) ∨
+           (fr.core.preflight = true ∧
+              serveFull fc fr = noHeaders ⟨204, false, none, false, [varyOrigin]⟩ (allowHdrOf fr)))) ∨
+       (fr.origin ≠ [] ∧ ∃ a, a ≠ [] ∧ decideOrigin fc fr.origin = .ok a ∧
+          ((fr.core.preflight = false ∧
+              serveFull fc fr = ⟨⟨200, true, some a, fc.core.creds, [varyOrigin]⟩, none, none, none, acehOf fc, none⟩) ∨
+           (fr.core.preflight = true ∧
+              serveFull fc fr = ⟨⟨204, false, some a, fc.core.creds, varyOrigin :: varyPreflight⟩,
+                allowHdrOf fr, some (acamOf fc fr), acahOf fc fr, none, maxAgeOf fc⟩))))) := by
+  cases hs : fr.skip with
+  | true => left; exact ⟨rfl, by simp [serveFull, hs]⟩
+  | false =>
+    right
+    refine ⟨rfl, ?_⟩
+    have hor : fr.core.origins.headD [] = fr.origin := rfl
+    unfold serveFull
+    simp only [hs, Bool.false_eq_true, if_false, hor]
+    by_cases h0 : fr.origin = []
+    · left
+      refine ⟨h0, ?_⟩
+      simp only [h0, if_true]
+      cases hp : fr.core.preflight
+      · left; exact ⟨rfl, by simp [allowHdrOf, rAllowOf, hp]⟩
+      · right; exact ⟨rfl, by simp [allowHdrOf, rAllowOf, hp]⟩
+    · right
+      simp only [h0, if_false]
+      cases hd : decideOrigin fc fr.origin with
+      | error st => left; exact ⟨h0, st, rfl, by simp [allowHdrOf, rAllowOf]⟩
+      | ok a =>
+        right
+        by_cases ha : a = []
+        · left
+          subst ha
+          refine ⟨h0, rfl, ?_⟩
+          simp only [if_true]
+          cases hp : fr.core.preflight
+          · left; exact ⟨rfl, by simp [allowHdrOf, rAllowOf, hp]⟩
+          · right; exact ⟨rfl, by simp [allowHdrOf, rAllowOf, hp]⟩
+        · right
+          refine ⟨h0, a, ha, rfl, ?_⟩
+          simp only [ha, if_false]
+          cases hp : fr.core.preflight
+          · left; exact ⟨rfl, by simp [acehOf]⟩
+          · right; exact ⟨rfl, by simp [allowHdrOf, rAllowOf, hp, acamOf, acahOf, maxAgeOf]⟩
+
+/-- **serveFull_core** — with `AllowOriginFunc` unset and a Skipper that does not skip, the complete
+    middleware answers exactly as the core model on status / handler / ACAO / ACAC / Vary; hence
+    `C11_acao_sound`, `C11_acao_complete`, `C11_disallowed_blocked`, … speak about it. -/
+theorem serveFull_core (fc : Full) (fr : FReq) (hf : fc.func = none) (hs : fr.skip = false) :
+    (serveFull fc fr).core = serve fc.core fr.core := by
+  have hor : fr.core.origins.headD [] = fr.origin := rfl
+  have hd : decideOrigin fc fr.origin = .ok (allowOrigin fc.core fr.origin) := by
+    simp [decideOrigin, hf]
+  unfold serveFull serve
+  simp only [hs, Bool.false_eq_true, if_false, hor, hd]
+  by_cases h0 : fr.origin = []
+  · simp only [h0, if_true]; cases fr.core.preflight <;> simp [noHeaders]
+  · simp only [h0, if_false]
+    by_cases ha : allowOrigin fc.core fr.origin = []
+    · simp only [ha, if_true]; cases fr.core.preflight <;> simp [noHeaders]
+    · simp only [ha, if_false]; cases fr.core.preflight <;> simp
+
+/-- **C11_full_acao_sound** — the complete middleware (any Skipper answer, `AllowOriginFunc` unset):
+    Access-Control-Allow-Origin only for an allowed origin, value `*` or the Origin verbatim. -/
+theorem C11_full_acao_sound (fc : Full) (fr : FReq) (v : Str) (hf : fc.func = none)
+    (hv : ValidOrigin fr.origin) (hp : ∀ p ∈ effOrigins fc.core, PatScheme p)
+    (h : (serveFull fc fr).core.acao = some v) :
+    ((v = star ∧ star ∈ effOrigins fc.core) ∨ v = fr.origin) ∧ Allowed (effOrigins fc.core) fr.origin := by
+  cases hs : fr.skip with
+  | true => simp [serveFull, hs, noHeaders] at h
+  | false =>
+    rw [serveFull_core fc fr hf hs] at h
+    exact C11_acao_sound fc.core fr.core v hv hp h
+
+/-- **C11_func_sound** — with `AllowOriginFunc` set the allow-list is ignored: ACAO is emitted only
+    when the function, asked about the request's Origin verbatim, allowed it, and its value is
+    that Origin verbatim (never `*`). -/
+theorem C11_func_sound (fc : Full) (fr : FReq) (f : Str → FRes) (v : Str) (hf : fc.func = some f)
+    (h : (serveFull fc fr).core.acao = some v) :
+    v = fr.origin ∧ f fr.origin = .allow ∧ fr.skip = false := by
+  obtain ⟨he, hal, hde⟩ := decideOrigin_func fc f hf fr.origin
+  have hd : ∀ a, decideOrigin fc fr.origin = .ok a → a ≠ [] → a = fr.origin ∧ f fr.origin = .allow := by
+    intro a ha hne
+    cases hfo : f fr.origin with
+    | err st => rw [he st hfo] at ha; cases ha
+    | allow => rw [hal hfo] at ha; cases ha; exact ⟨rfl, rfl⟩
+    | deny => rw [hde hfo] at ha; cases ha; exact absurd rfl hne
+  rcases serveFull_cases fc fr with ⟨_, e⟩ | ⟨hs, hc⟩
+  · rw [e] at h; simp [noHeaders] at h
+  · rcases hc with ⟨_, ⟨_, e⟩ | ⟨_, e⟩⟩ | ⟨_, st, _, e⟩ | ⟨_, _, ⟨_, e⟩ | ⟨_, e⟩⟩ |
+        ⟨_, a, ha, hda, ⟨_, e⟩ | ⟨_, e⟩⟩
+    all_goals rw [e] at h
+    all_goals first
+      | (simp [noHeaders] at h; done)
+      | (have hv : a = v := by simpa using h
+         subst hv
+         exact ⟨(hd a hda ha).1, (hd a hda ha).2, hs⟩)
+
+/-- **C11_func_blocks** — when the function does not allow the Origin, nothing is granted and the
+    handler does not run; its error is what the middleware returns (also on a preflight). -/
+theorem C11_func_blocks (fc : Full) (fr : FReq) (f : Str → FRes) (hf : fc.func = some f)
+    (hs : fr.skip = false) (ho : fr.origin ≠ []) (hna : f fr.origin ≠ .allow) :
+    (serveFull fc fr).core.acao = none ∧ (serveFull fc fr).core.acac = false ∧
+    (serveFull fc fr).core.ran = false ∧
+    (∀ st, f fr.origin = .err st → (serveFull fc fr).core.status = st) ∧
+    (f fr.origin = .deny → (serveFull fc fr).core.status = if fr.core.preflight then 204 else 401) := by
+  obtain ⟨he, hal, hdn⟩ := decideOrigin_func fc f hf fr.origin
+  rcases serveFull_cases fc fr with ⟨hs', _⟩ | ⟨_, hc⟩
+  · rw [hs] at hs'; cases hs'
+  · rcases hc with ⟨h0, _⟩ | ⟨_, st, hde, e⟩ | ⟨_, hde, ⟨hp, e⟩ | ⟨hp, e⟩⟩ | ⟨_, a, ha, hda, _⟩
+    · exact absurd h0 ho
+    · rw [e]
+      cases hfo : f fr.origin with
+      | err st' => rw [he st' hfo] at hde; cases hde; simp [noHeaders]
+      | allow => exact absurd hfo hna
+      | deny => rw [hdn hfo] at hde; cases hde
+    · rw [e]
+      cases hfo : f fr.origin with
+      | err st' => rw [he st' hfo] at hde; cases hde
+      | allow => exact absurd hfo hna
+      | deny => simp [noHeaders, hp]
+    · rw [e]
+      cases hfo : f fr.origin with
+      | err st' => rw [he st' hfo] at hde; cases hde
+      | allow => exact absurd hfo hna
+      | deny => simp [noHeaders, hp]
+    · cases hfo : f fr.origin with
+      | err st' => rw [he st' hfo] at hda; cases hda
+      | allow => exact absurd hfo hna
+      | deny => rw [hdn hfo] at hda; cases hda; exact absurd rfl ha
+
+/-- **C11_skip** — a request the configured Skipper takes out of the middleware reaches the handler
+    and the middleware adds nothing to the response (no ACAO / ACAC / Vary / Allow / preflight headers). -/
+theorem C11_skip (fc : Full) (fr : FReq) (hs : fr.skip = true) :
+    serveFull fc fr = noHeaders ⟨200, true, none, false, []⟩ none := by
+  simp [serveFull, hs]
+
+/-- **C11_full_credentials** — Access-Control-Allow-Credentials only when enabled, only together
+    with ACAO, never on a skipped request — whichever way the origin was decided. -/
+theorem C11_full_credentials (fc : Full) (fr : FReq) (h : (serveFull fc fr).core.acac = true) :
+    fc.core.creds = true ∧ (serveFull fc fr).core.acao ≠ none ∧ fr.skip = false := by
+  rcases serveFull_cases fc fr with ⟨_, e⟩ | ⟨hs, hc⟩
+  · rw [e] at h; simp [noHeaders] at h
+  · rcases hc with ⟨_, ⟨_, e⟩ | ⟨_, e⟩⟩ | ⟨_, st, _, e⟩ | ⟨_, _, ⟨_, e⟩ | ⟨_, e⟩⟩ |
+        ⟨_, a, ha, hda, ⟨_, e⟩ | ⟨_, e⟩⟩
+    all_goals rw [e] at h ⊢
+    all_goals first
+      | (simp [noHeaders] at h; done)
+      | exact ⟨by simpa using h, by simp, hs⟩
+
+/-- **C11_full_preflight** — an OPTIONS request that is not skipped never runs the handler and is
+    answered 204, the one exception being an error returned by `AllowOriginFunc`. -/
+theorem C11_full_preflight (fc : Full) (fr : FReq) (hs : fr.skip = false) (hp : fr.core.preflight = true) :
+    (serveFull fc fr).core.ran = false ∧
+    ((serveFull fc fr).core.status = 204 ∨
+     ∃ f st, fc.func = some f ∧ f fr.origin = .err st ∧ (serveFull fc fr).core.status = st) := by
+  rcases serveFull_cases fc fr with ⟨hs', _⟩ | ⟨_, hc⟩
+  · rw [hs] at hs'; cases hs'
+  · rcases hc with ⟨_, ⟨hp', e⟩ | ⟨_, e⟩⟩ | ⟨_, st, hde, e⟩ | ⟨_, _, ⟨hp', e⟩ | ⟨_, e⟩⟩ |
+        ⟨_, a, ha, hda, ⟨hp', e⟩ | ⟨_, e⟩⟩
+    · rw [hp] at hp'; cases hp'
+    · rw [e]; simp [noHeaders]
+    · rw [e]
+      refine ⟨by simp [noHeaders], Or.inr ?_⟩
+      cases hfn : fc.func with
+      | none => simp [decideOrigin, hfn] at hde
+      | some f =>
+        obtain ⟨he, hal, hdn⟩ := decideOrigin_func fc f hfn fr.origin
+        cases hfo : f fr.origin with
+        | err st' => rw [he st' hfo] at hde; cases hde; exact ⟨f, _, rfl, hfo, by simp [noHeaders]⟩
+        | allow => rw [hal hfo] at hde; cases hde
+        | deny => rw [hdn hfo] at hde; cases hde
+    · rw [hp] at hp'; cases hp'
+    · rw [e]; simp [noHeaders]
+    · rw [hp] at hp'; cases hp'
+    · rw [e]; simp
+
+/-- **C11_full_ran** — the handler runs only for a skipped request, a request without Origin, or
+    a non-preflight request that was granted ACAO. -/
+theorem C11_full_ran (fc : Full) (fr : FReq) (h : (serveFull fc fr).core.ran = true) :
+    fr.skip = true ∨
+    (fr.core.preflight = false ∧ (fr.origin = [] ∨ (serveFull fc fr).core.acao ≠ none)) := by
+  rcases serveFull_cases fc fr with ⟨hs, _⟩ | ⟨_, hc⟩
+  · exact Or.inl hs
+  · right
+    rcases hc with ⟨h0, ⟨hp, e⟩ | ⟨_, e⟩⟩ | ⟨_, st, _, e⟩ | ⟨_, _, ⟨_, e⟩ | ⟨_, e⟩⟩ |
+        ⟨_, a, ha, hda, ⟨hp, e⟩ | ⟨_, e⟩⟩
+    · exact ⟨hp, Or.inl h0⟩
+    all_goals rw [e] at h ⊢
+    all_goals first
+      | (simp [noHeaders] at h; done)
+      | exact ⟨hp, Or.inr (by simp)⟩
+
+/-- **C11_grant_headers** — the other CORS response headers never leak to an origin that was not
+    granted: Allow-Methods / Allow-Headers / Max-Age appear only on a granted preflight,
+    Expose-Headers only on a granted simple request, Max-Age only when configured, and a negative
+    `MaxAge` is sent as `0`. -/
+theorem C11_grant_headers (fc : Full) (fr : FReq) :
+    (((serveFull fc fr).acam ≠ none ∨ (serveFull fc fr).acah ≠ none ∨ (serveFull fc fr).maxAge ≠ none) →
+      (serveFull fc fr).core.acao ≠ none ∧ fr.core.preflight = true) ∧
+    ((serveFull fc fr).aceh ≠ none → (serveFull fc fr).core.acao ≠ none ∧ fr.core.preflight = false) ∧
+    (∀ v, (serveFull fc fr).maxAge = some v → fc.maxAge ≠ 0 ∧ (fc.maxAge < 0 → v = ['0'])) := by
+  have hma : ∀ v, maxAgeOf fc = some v → fc.maxAge ≠ 0 ∧ (fc.maxAge < 0 → v = ['0']) := by
+    intro v hv
+    unfold maxAgeOf at hv
+    by_cases h0 : fc.maxAge = 0
+    · simp [h0] at hv
+    · simp only [h0, if_false, Option.some.injEq] at hv
+      refine ⟨h0, fun hneg => ?_⟩
+      have : ¬ fc.maxAge > 0 := by omega
+      rw [← hv]; simp [maxAgeStr, this]
+  rcases serveFull_cases fc fr with ⟨_, e⟩ | ⟨_, hc⟩
+  · rw [e]; simp [noHeaders]
+  · rcases hc with ⟨_, ⟨_, e⟩ | ⟨_, e⟩⟩ | ⟨_, st, _, e⟩ | ⟨_, _, ⟨_, e⟩ | ⟨_, e⟩⟩ |
+        ⟨_, a, ha, hda, ⟨hp, e⟩ | ⟨hp, e⟩⟩
+    all_goals rw [e]
+    all_goals first
+      | (simp [noHeaders]; done)
+      | (simp [hp]; done)
+      | (refine ⟨fun _ => ⟨by simp, hp⟩, fun h => by simp at h, fun v hv => hma v (by simpa using hv)⟩)
+
+theorem maxAgeStr_neg (n : Int) (h : n < 0) : maxAgeStr n = ['0'] := by
+  have : ¬ n > 0 := by omega
+  simp [maxAgeStr, this]
+
+/-- **C11_allow_methods** — on a granted preflight Access-Control-Allow-Methods is the router's
+    Allow value exactly when `AllowMethods` was left empty and the router provided one; otherwise
+    the configured list (the default list when empty), joined with commas. -/
+theorem C11_allow_methods (fc : Full) (fr : FReq) (hs : fr.skip = false) (hp : fr.core.preflight = true)
+    (hg : (serveFull fc fr).core.acao ≠ none) :
+    (serveFull fc fr).acam = some (if fc.methods = [] ∧ fr.routerAllow ≠ [] then fr.routerAllow
+      else joinComma (if fc.methods = [] then defaultMethods else fc.methods)) ∧
+    (serveFull fc fr).allow = (if fr.routerAllow = [] then none else some fr.routerAllow) := by
+  have hor : fr.core.origins.headD [] = fr.origin := rfl
+  unfold serveFull at hg ⊢
+  simp only [hs, Bool.false_eq_true, if_false, hor, hp, if_true] at hg ⊢
+  by_cases h0 : fr.origin = []
+  · simp [h0, noHeaders] at hg
+  · simp only [h0, if_false] at hg ⊢
+    cases hd : decideOrigin fc fr.origin with
+    | error st => rw [hd] at hg; simp [noHeaders] at hg
+    | ok a =>
+      rw [hd] at hg
+      simp only [] at hg ⊢
+      by_cases ha : a = []
+      · simp [ha, noHeaders] at hg
+      · simp [ha]
+
+/-- **C11_ctor_default** — `CORS()` (= `CORSWithConfig(DefaultCORSConfig)`): every origin is answered
+    `Access-Control-Allow-Origin: *`, credentials are never allowed, and because the default
+    AllowMethods are set the preflight lists them whatever the router knows about the path. -/
+theorem C11_ctor_default (fr : FReq) (hs : fr.skip = false) (ho : fr.origin ≠ []) :
+    (serveFull defaultFull fr).core.acao = some star ∧ (serveFull defaultFull fr).core.acac = false ∧
+    (fr.core.preflight = true →
+      (serveFull defaultFull fr).acam = some "GET,HEAD,PUT,PATCH,POST,DELETE".toList) ∧
+    (serveFull defaultFull fr).maxAge = none ∧ (serveFull defaultFull fr).aceh = none := by
+  have hor : fr.core.origins.headD [] = fr.origin := rfl
+  have hd : decideOrigin defaultFull fr.origin = .ok star := by
+    simp [decideOrigin, defaultFull, allowOrigin, effOrigins, allowLoop, star]
+  have hj : joinComma defaultMethods = "GET,HEAD,PUT,PATCH,POST,DELETE".toList := by decide
+  have hm : defaultFull.methods = defaultMethods := rfl
+  have hm' : defaultMethods ≠ [] := by decide
+  unfold serveFull
+  simp only [hs, Bool.false_eq_true, if_false, hor, ho, hd]
+  have hs' : star ≠ [] := by decide
+  simp only [hs', if_false]
+  cases hp : fr.core.preflight
+  · simp [defaultFull, joinComma]
+  · simp [hm', hj, defaultFull, joinComma]
+
+-- non-vacuity of the round-4 statements
+def fGood : Str → FRes := fun o => if o = oGood then .allow else if o = oEvil then .err 403 else .deny
+def fullDemo : Full := ⟨⟨["https://unrelated.test".toList], true, false⟩, some fGood, [], ["X-A".toList, "X-B".toList],
+  ["X-E".toList], -5⟩
+-- AllowOriginFunc replaces the allow-list; preflight headers; negative MaxAge sent as 0; router Allow used
+example : serveFull fullDemo ⟨⟨true, [oGood]⟩, false, "OPTIONS, GET".toList, "X-Req".toList⟩ =
+    ⟨⟨204, false, some oGood, true, varyOrigin :: varyPreflight⟩, some "OPTIONS, GET".toList,
+      some "OPTIONS, GET".toList, some "X-A,X-B".toList, none, some ['0']⟩ := by decide
+-- its error is returned even on a preflight; a refusal is a bare 204 / 401
+example : (serveFull fullDemo ⟨⟨true, [oEvil]⟩, false, [], []⟩).core = ⟨403, false, none, false, [varyOrigin]⟩ ∧
+    (serveFull fullDemo ⟨⟨false, ["https://unrelated.test".toList]⟩, false, [], []⟩).core
+      = ⟨401, false, none, false, [varyOrigin]⟩ := by decide
+-- simple request: Expose-Headers; skipped request: nothing
+example : serveFull fullDemo ⟨⟨false, [oGood]⟩, false, [], []⟩ =
+    ⟨⟨200, true, some oGood, true, [varyOrigin]⟩, none, none, none, some "X-E".toList, none⟩ ∧
+    serveFull fullDemo ⟨⟨true, [oEvil]⟩, true, "OPTIONS, GET".toList, []⟩ = noHeaders ⟨200, true, none, false, []⟩ none := by
+  decide
+-- CORSWithConfig(CORSConfig{}) takes the router's Allow, CORS() does not; Request-Headers echoed
+example : (serveFull ⟨⟨[], false, false⟩, none, [], [], [], 0⟩ ⟨⟨true, [oGood]⟩, false, "OPTIONS, GET".toList, "X-Req".toList⟩).acam
+      = some "OPTIONS, GET".toList ∧
+    (serveFull defaultFull ⟨⟨true, [oGood]⟩, false, "OPTIONS, GET".toList, "X-Req".toList⟩).acam
+      = some "GET,HEAD,PUT,PATCH,POST,DELETE".toList ∧
+    (serveFull defaultFull ⟨⟨true, [oGood]⟩, false, "OPTIONS, GET".toList, "X-Req".toList⟩).acah = some "X-Req".toList := by
+  decide
+example : compiles ("https://".toList ++ [Char.ofNat 0xc3, Char.ofNat 0xa9] ++ ".example".toList) = true := by decide
+example : compiles ("https://".toList ++ [Char.ofNat 0xed, Char.ofNat 0xa0, Char.ofNat 0x80]) = false ∧
+    compiles ("https://".toList ++ [Char.ofNat 0xc0, Char.ofNat 0x80]) = false ∧
+    compiles ("https://".toList ++ [Char.ofNat 0xe2, Char.ofNat 0x82]) = false ∧
+    compiles ("https://".toList ++ [Char.ofNat 0xe2, Char.ofNat 0x82, Char.ofNat 0xac]) = true ∧
+    compiles ("https://".toList ++ [Char.ofNat 0xf4, Char.ofNat 0x90, Char.ofNat 0x80, Char.ofNat 0x80]) = false := by decide
 
 end C11
